@@ -72,6 +72,10 @@ var c16PrevSrc, c16LastSrc string
 
 // ---- printer (argument order per doc/texinfo/instructions.texi) ---------------------------------
 
+// c16PadNum makes the printer write sizes and signals with a leading zero ("010" for 10): an author may
+// write numbers that way and means the decimal value.
+var c16PadNum bool
+
 func c16Tokens(l c16Line) []string {
 	if l.B == "DOWN" {
 		return []string{"DOWN", l.Target, l.I.Sel, l.I.Sym} // DOWN <symbol> <selector> <label>
@@ -85,6 +89,9 @@ func c16Tokens(l c16Line) []string {
 		mode = "1"
 	}
 	num := strconv.FormatUint(uint64(i.N), 10)
+	if c16PadNum {
+		num = "0" + num
+	}
 	if l.Flag != "" {
 		num = l.Flag
 	}
@@ -119,7 +126,7 @@ func c16Tokens(l c16Line) []string {
 
 // layouts whose rejection is asserted (for established line forms), compared layouts whose rejection
 // is only counted, and layouts the unchanged parser is known to reject.
-var c16Layouts = []string{"plain", "trail", "comment", "blank", "tabs", "crlf"}
+var c16Layouts = []string{"plain", "trail", "comment", "blank", "tabs", "crlf", "padnum"}
 var c16ProbeLayouts = []string{"leadblank", "leadcomment", "midcomment", "wsline", "noeol", "indent"}
 var c16LayoutAsserted = map[string]bool{"plain": true, "trail": true}
 var c16LayoutKnownRejected = map[string]bool{"leadblank": true, "leadcomment": true, "midcomment": true, "wsline": true, "noeol": true}
@@ -127,6 +134,8 @@ var c16LayoutKnownRejected = map[string]bool{"leadblank": true, "leadcomment": t
 var c16Comments = []string{"\t\t# menu item", " # INCMP foo 1 \"quoted\" 'x' 007 # again"}
 
 func c16Render(lines []c16Line, layout string) string {
+	c16PadNum = layout == "padnum"
+	defer func() { c16PadNum = false }()
 	var sb strings.Builder
 	for k, l := range lines {
 		t := c16Tokens(l)
